@@ -1,23 +1,22 @@
 //! C11 harness: analysis results must not depend on hash seeds / internal iteration order.
-//!   c11 one    --spec-json '{"files":[["a.lua","x = 1"],…],"mode":"uri"}'   (or --spec-file F)
-//!                 analyses ONE workspace in THIS process and prints its canonical dump (one JSON line).
-//!                 std's RandomState (and foldhash's global seed) are re-seeded per process, so the parent modes
-//!                 spawn this sub-command repeatedly to sample hash seeds.
-//!   c11 corr   --seed S --n N --procs M   -> JSON lines: per workspace, the file-id order handed to `update_index`
-//!                 (hook recorder) in every update entry point, observed in M fresh processes and K analyses per process
-//!   c11 search --seed S --n N --procs M   -> JSON lines: violations (two runs with the same registration order
-//!                 whose canonical dumps differ), then {"summary":…}
-//!   c11 gen    --seed S --n N             -> the generated workspace specs (for inspection)
-//! Registration order = order of "files" in the spec.  Modes: uri (update_files_by_uri, one batch),
-//! path (update_files_by_path), single (update_file_by_uri per file), reindex (batch then reindex()),
-//! reload (reload_workspace_files twice).
-use emmylua_code_analysis::{EmmyLuaAnalysis, FileId, LuaType, RenderLevel, VirtualUrlGenerator, humanize_type};
+//!   c11 one  [--spec-json J | --spec-file F | specs on stdin, one JSON per line]
+//!              spec = {"files":[["a.lua","x = 1"],["b.lua",null],…],"mode":"uri|path|single|reindex|reload","std":false,"repeat":1}
+//!              analyses every spec in THIS process and prints one canonical dump per spec (one JSON line each).
+//!              std's RandomState is re-seeded per process, so the python plugin spawns this sub-command M times
+//!              (fresh hash seeds) and compares the dumps: that is the `search` of this property.
+//!   c11 corr --seed S --n N
+//!              JSON lines for the correspondence with the Coq model (EV.C11.Corr):
+//!              {"k":"drv",…}  generated update batches (duplicates, removals) through every update entry point with the
+//!                             file-id order handed to `update_index` (hook recorder verif_c11);
+//!              {"k":"bo",…}   generated dependency relations (chains, cycles, self-requires, metas) and shuffled id lists
+//!                             through FileDependencyRelation::get_best_analysis_order.
+//! Registration order = order of "files" in the spec.
+use emmylua_code_analysis::{EmmyLuaAnalysis, FileId, LuaDependencyIndex, LuaType, RenderLevel, VirtualUrlGenerator, humanize_type};
 use emmylua_parser::{LuaAstNode, LuaExpr, LuaSyntaxKind, LuaTokenKind};
 use serde_json::{Value, json};
 use std::collections::{BTreeMap, BTreeSet};
 use std::io::Read;
 use std::path::PathBuf;
-use std::process::{Command, Stdio};
 use tokio_util::sync::CancellationToken;
 use vh_common::{Args, Rng, guarded};
 
@@ -91,7 +90,7 @@ fn name_file_ids(s: &str, names: &BTreeMap<u32, String>) -> String {
 // ------------------------------------------------------------------------------------------ one analysis
 
 struct Spec {
-    files: Vec<(String, String)>,
+    files: Vec<(String, Option<String>)>,
     mode: String,
     std: bool,
     repeat: usize,
@@ -102,7 +101,7 @@ fn parse_spec(v: &Value) -> Spec {
         .as_array()
         .map(|a| {
             a.iter()
-                .map(|e| (e[0].as_str().unwrap_or("").to_string(), e[1].as_str().unwrap_or("").to_string()))
+                .map(|e| (e[0].as_str().unwrap_or("").to_string(), e[1].as_str().map(|t| t.to_string())))
                 .collect()
         })
         .unwrap_or_default();
@@ -114,11 +113,11 @@ fn parse_spec(v: &Value) -> Spec {
     }
 }
 
-#[cfg(any())] // TEMP-NOHOOK
+#[cfg(emmyluals_emmylua_analyzer_rust_verif)]
 fn take_recorded_orders() -> Option<Vec<Vec<u32>>> {
     Some(emmylua_code_analysis::verif_c11::take_update_orders())
 }
-#[cfg(all())] // TEMP-NOHOOK
+#[cfg(not(emmyluals_emmylua_analyzer_rust_verif))]
 fn take_recorded_orders() -> Option<Vec<Vec<u32>>> {
     None
 }
@@ -132,29 +131,30 @@ fn analyse_once(spec: &Spec) -> Value {
     analysis.add_main_workspace(vg.base.clone());
     let _ = take_recorded_orders();
     let uris: Vec<_> = spec.files.iter().map(|(n, _)| vg.new_uri(n)).collect();
+    let mut returned: Vec<FileId> = Vec::new();
     match spec.mode.as_str() {
         "single" => {
             for (i, (_, t)) in spec.files.iter().enumerate() {
-                analysis.update_file_by_uri(&uris[i], Some(t.clone()));
+                analysis.update_file_by_uri(&uris[i], t.clone());
             }
         }
         "path" => {
-            let fs = spec.files.iter().map(|(n, t)| (vg.new_path(n), Some(t.clone()))).collect();
-            analysis.update_files_by_path(fs);
+            let fs = spec.files.iter().map(|(n, t)| (vg.new_path(n), t.clone())).collect();
+            returned = analysis.update_files_by_path(fs);
         }
         "reindex" => {
-            let fs = spec.files.iter().enumerate().map(|(i, (_, t))| (uris[i].clone(), Some(t.clone()))).collect();
+            let fs = spec.files.iter().enumerate().map(|(i, (_, t))| (uris[i].clone(), t.clone())).collect();
             analysis.update_files_by_uri(fs);
             analysis.reindex();
         }
         "reload" => {
-            let fs: Vec<_> = spec.files.iter().map(|(n, t)| (vg.new_path(n), Some(t.clone()))).collect();
+            let fs: Vec<_> = spec.files.iter().map(|(n, t)| (vg.new_path(n), t.clone())).collect();
             analysis.reload_workspace_files(fs.clone(), vec![]);
             analysis.reload_workspace_files(fs, vec![]);
         }
         _ => {
-            let fs = spec.files.iter().enumerate().map(|(i, (_, t))| (uris[i].clone(), Some(t.clone()))).collect();
-            analysis.update_files_by_uri(fs);
+            let fs = spec.files.iter().enumerate().map(|(i, (_, t))| (uris[i].clone(), t.clone())).collect();
+            returned = analysis.update_files_by_uri(fs);
         }
     }
     let recorded = take_recorded_orders();
@@ -266,7 +266,8 @@ fn analyse_once(spec: &Spec) -> Value {
             .filter(|o: &Vec<String>| o.iter().any(|n| !n.starts_with('#')))
             .collect::<Vec<_>>()
     });
-    json!({"diag": diag, "types": types, "members": members, "orders": rec})
+    let returned: Vec<String> = returned.iter().map(|f| names.get(&f.id).cloned().unwrap_or_else(|| format!("#{}", f.id))).collect();
+    json!({"diag": diag, "types": types, "members": members, "orders": rec, "returned": returned})
 }
 
 fn analyse(spec: &Spec) -> Value {
@@ -282,6 +283,126 @@ fn analyse(spec: &Spec) -> Value {
     json!({"runs": runs})
 }
 
+// ------------------------------------------------------------------------------------------ correspondence cases
+
+fn mk_set<S: Default + Extend<FileId>>(xs: &[u32]) -> S {
+    let mut s = S::default();
+    s.extend(xs.iter().map(|&i| FileId::new(i)));
+    s
+}
+
+/// one generated dependency relation + id list through get_best_analysis_order
+fn corr_best_order(rng: &mut Rng) -> Value {
+    let universe = 2 + rng.below(9) as u32; // ids 0..universe
+    let mut all: Vec<u32> = (0..universe).collect();
+    // shuffled, possibly partial id list (no duplicates: the callers pass the ids of a set)
+    for i in (1..all.len()).rev() {
+        let j = rng.below(i + 1);
+        all.swap(i, j);
+    }
+    let keep = match rng.below(4) {
+        0 => all.len(),
+        _ => rng.below(all.len() + 1),
+    };
+    let mut ids: Vec<u32> = all[..keep].to_vec();
+    if rng.chance(1, 3) {
+        ids.sort();
+    }
+    let shape = rng.below(6);
+    let mut edges: Vec<(u32, u32)> = Vec::new(); // (file, dependency)
+    match shape {
+        0 => {} // no dependencies
+        1 => {
+            // chain through the shuffled list
+            for w in all.windows(2) {
+                edges.push((w[0], w[1]));
+            }
+        }
+        2 => {
+            // one cycle plus tails
+            let k = 1 + rng.below(all.len().min(4));
+            for i in 0..k {
+                edges.push((all[i], all[(i + 1) % k]));
+            }
+            for i in k..all.len() {
+                edges.push((all[i], all[rng.below(i)]));
+            }
+        }
+        3 => {
+            // DAG: only edges to smaller position
+            for i in 1..all.len() {
+                for j in 0..i {
+                    if rng.chance(1, 3) {
+                        edges.push((all[i], all[j]));
+                    }
+                }
+            }
+        }
+        _ => {
+            let m = rng.below((universe * 2) as usize + 1);
+            for _ in 0..m {
+                edges.push((rng.below(universe as usize) as u32, rng.below(universe as usize) as u32));
+            }
+        }
+    }
+    if rng.chance(1, 6) && !all.is_empty() {
+        let f = all[rng.below(all.len())];
+        edges.push((f, f)); // a file requiring itself
+    }
+    let metas: Vec<u32> = (0..universe).filter(|_| rng.chance(1, 4)).collect();
+    let mut index = LuaDependencyIndex::new();
+    for &(f, d) in &edges {
+        index.add_required_file(FileId::new(f), FileId::new(d));
+    }
+    let fids: Vec<FileId> = ids.iter().map(|&i| FileId::new(i)).collect();
+    let out = guarded(|| index.get_file_dependencies().get_best_analysis_order(&fids, &mk_set(&metas)));
+    let outv = match out {
+        Ok(v) => json!(v.iter().map(|f| f.id).collect::<Vec<_>>()),
+        Err(e) => json!({"panic": e}),
+    };
+    json!({"k": "bo", "ids": ids, "deps": edges.iter().map(|&(f, d)| json!([f, d])).collect::<Vec<_>>(), "metas": metas, "out": outv, "shape": shape})
+}
+
+/// one generated update batch through an update entry point; the hook records what reaches update_index
+fn corr_driver(rng: &mut Rng) -> Value {
+    let nuri = 1 + rng.below(8);
+    let len = rng.below(12);
+    let batch: Vec<(usize, bool)> = (0..len).map(|_| (rng.below(nuri), !rng.chance(1, 5))).collect();
+    let mode = rng.below(4); // 0 uri, 1 single, 2 reindex, 3 path (= 0 for the model)
+    let vg = VirtualUrlGenerator { base: PathBuf::from("/c11ws") };
+    let mut analysis = EmmyLuaAnalysis::new();
+    analysis.add_main_workspace(vg.base.clone());
+    let _ = take_recorded_orders();
+    let text = |u: usize, b: bool| if b { Some(format!("g{} = {}\n", u, u)) } else { None };
+    match mode {
+        1 => {
+            for &(u, b) in &batch {
+                analysis.update_file_by_uri(&vg.new_uri(&format!("u{u}.lua")), text(u, b));
+            }
+        }
+        3 => {
+            analysis.update_files_by_path(batch.iter().map(|&(u, b)| (vg.new_path(&format!("u{u}.lua")), text(u, b))).collect());
+        }
+        _ => {
+            analysis.update_files_by_uri(batch.iter().map(|&(u, b)| (vg.new_uri(&format!("u{u}.lua")), text(u, b))).collect());
+            if mode == 2 {
+                analysis.reindex();
+            }
+        }
+    }
+    let orders = take_recorded_orders();
+    json!({"k": "drv", "mode": if mode == 3 { 0 } else { mode }, "entry": mode,
+           "batch": batch.iter().map(|&(u, b)| json!([u, if b { 1 } else { 0 }])).collect::<Vec<_>>(),
+           "orders": orders})
+}
+
+fn parse_specs(txt: &str) -> Vec<Value> {
+    if let Ok(v) = serde_json::from_str::<Value>(txt) {
+        return vec![v];
+    }
+    txt.lines().filter(|l| !l.trim().is_empty()).map(|l| serde_json::from_str(l).unwrap_or(json!({}))).collect()
+}
+
 fn main() {
     let args = Args::parse();
     match args.cmd.as_str() {
@@ -295,13 +416,26 @@ fn main() {
                 let _ = std::io::stdin().read_to_string(&mut s);
                 s
             };
-            let v: Value = serde_json::from_str(&txt).unwrap_or(json!({}));
-            let spec = parse_spec(&v);
-            println!("{}", analyse(&spec));
+            for v in parse_specs(&txt) {
+                let spec = parse_spec(&v);
+                println!("{}", analyse(&spec));
+            }
+        }
+        "corr" => {
+            let seed = args.u64("seed", 1);
+            let n = args.usize("n", 100);
+            let mut rng = Rng::new(seed ^ 0xC11);
+            for i in 0..n {
+                let mut r = rng.fork();
+                if i % 3 == 0 {
+                    println!("{}", corr_driver(&mut r));
+                } else {
+                    println!("{}", corr_best_order(&mut r));
+                }
+            }
         }
         _ => {
-            eprintln!("usage: c11 one|corr|search|gen");
-            let _ = (Command::new("true"), Stdio::null(), Rng::new(0));
+            eprintln!("usage: c11 one|corr");
             std::process::exit(2);
         }
     }
